@@ -198,3 +198,50 @@ def gen_worker(arg):
         return dict(group=gname, task=task, jobs=[], stats={}, error="%s: %s" % (type(ex).__name__, ex), undecided=True)
     except Exception:
         return dict(group=gname, task=task, jobs=[], stats={}, error=traceback.format_exc(), crash=True)
+
+
+class NativeGroup(Group):
+    """bounded plumbing harness: the real wrappers executed on formal terms (pv/native), one 'obligation' per
+    (entry point, call form, keyword class, configuration) class, discharged when every scenario of the class passes"""
+    strength = 'B'
+
+    def __init__(self, name, families, bound_text, functions=()):
+        self.name = name
+        self.families = families            # tier -> [(family, n)]
+        self.bound_text = bound_text
+        self.functions = list(functions)
+
+    def tasks(self, tier):
+        return list(self.families[tier])
+
+    def generate(self, task, known=()):
+        from ..native import driver
+        fam, n = task
+        t = time.time()
+        res = driver.run_native(dict(op='family', family=fam, n=n))
+        jobs = []
+        fails_by_cls = {}
+        known_hits = 0
+        for f in res['failures']:
+            if any(k(f['desc']) for k in known):
+                known_hits += 1
+                continue
+            fails_by_cls.setdefault(f['cls'], f)
+        for cls, (tot, nfail) in sorted(res['classes'].items()):
+            nm = "%s:%s[N=%d]:%s" % (self.name, fam, n, cls)
+            if cls in fails_by_cls:
+                f = fails_by_cls[cls]
+                w = dict(kind='native', family=fam, args=f['args'], desc=f['desc'],
+                         summary="%s %s: %s" % (f['kind'], json_short(f['desc']), f['detail'][:300]))
+                pres = dict(result='sat', time=0.0, backend='native-formal', cached=False, model=None, reason=f['detail'][:500], witness=w)
+            else:
+                pres = dict(result='unsat', time=0.0, backend='native-formal', cached=False, model=None, reason=None)
+            jobs.append(dict(name=nm, subgoals=[nm.split(':', 1)[1]], presolved=pres, group=self.name, task=task, evaluations=tot))
+        stats = dict(family=fam, n=n, scenarios=res['scenarios'], classes=len(res['classes']), known_finding_hits=known_hits,
+                     samples=res.get('samples', [])[:2], gen_s=round(time.time() - t, 2))
+        return jobs, stats
+
+
+def json_short(d):
+    return "%s(%s) indices=%s empty=%s kw=%s %s" % (d.get('entry'), d.get('form'), d.get('indices'), d.get('empty'), d.get('kwargs'),
+                                                   'compiled-stubs' if d.get('compiled') else 'fallback')
